@@ -364,7 +364,7 @@ func (s *sut) process(parts string, inj []rawRec) {
 			if len(s.pending) == 0 {
 				continue
 			}
-			if len(dg)+len(s.pending[0].bytes)+64 > 65536 {
+			if len(dg)+len(s.pending[0].bytes)+16 > 65536 { // room for the sentinel record; the datagram may fill the reader's buffer exactly
 				continue
 			}
 			dg = append(dg, s.pending[0].bytes...)
@@ -388,7 +388,7 @@ func (s *sut) process(parts string, inj []rawRec) {
 		return
 	}
 	var outs []string
-	timeout := time.After(5 * time.Second)
+	timeout := time.After(60 * time.Second) // a stalled reader stays stalled; a slow machine does not
 	status := "ok"
 loop:
 	for {
